@@ -85,12 +85,9 @@ class Resolver:
                                   slice=ast.Name(id="<i>", ctx=ast.Load()),
                                   ctx=ast.Load()))
             return
+        # plain loop variables are never inlined
         for nm in target_names(target):
-            self.defs.setdefault(nm, []).append(
-                ast.Subscript(value=it, slice=ast.Name(id="<i>",
-                                                       ctx=ast.Load()),
-                              ctx=ast.Load()) if isinstance(target, ast.Name)
-                else None)
+            self.defs.setdefault(nm, []).append(None)
 
     def single(self, name):
         d = self.defs.get(name)
